@@ -99,6 +99,8 @@ class Interp:
                self calls (callees that cannot write them are not entered)
     observe  : observe(func, node, env) called whenever the effect of a CFG node
                takes place (the node is left by a non-'exc' edge)
+    env['@h'] holds the line numbers of the `except` clauses entered so far
+    (path marker for "this path went through a handler").
     """
 
     def __init__(self, prog, cls, track=(), inputs=None, depth=3, observe=None,
@@ -413,6 +415,8 @@ class Interp:
         if node.kind == 'handler':
             if a.name:
                 env[a.name] = UNK
+            # path marker: line numbers of the except clauses passed
+            env['@h'] = tuple(sorted(set(env.get('@h', ())) | {a.lineno}))
             return [env]
         if node.kind != 'stmt' or a is None:
             return [env]
